@@ -242,7 +242,7 @@ class MultiCtl(BaseMultiCtl, Module):
             else:
                 mapmin, mapmax = 0, 0x8000
                 gains.add(256)
-            mappings.append((mapmin, mapmax, ctl.number))
+            mappings.append((mapmin, mapmax, ctl.number, 0, 0, 0, 0, 0))
             mods.append(project.modules[mod.index])
         if len(mods) != len(set(mods)):
             raise MappingError(
